@@ -24,6 +24,8 @@ import (
 	"verifharness/vh"
 )
 
+const done = -999999 // AvlSet!Done
+
 type call struct {
 	A string `json:"a"`
 	J int    `json:"j"`
@@ -99,10 +101,11 @@ func sortedCopy(a []int) []int {
 }
 
 func replay(args []string) {
-	if len(args) < 4 {
-		vh.Fatal("usage: avl replay cases results shapes maxkey")
+	if len(args) < 5 {
+		vh.Fatal("usage: avl replay cases results shapes minkey maxkey")
 	}
-	maxkey, _ := strconv.Atoi(args[3])
+	minkey, _ := strconv.Atoi(args[3])
+	maxkey, _ := strconv.Atoi(args[4])
 	out := vh.NewOut(args[1])
 	defer out.Close()
 	shapes := map[string]bool{}
@@ -182,20 +185,20 @@ func replay(args []string) {
 			inS[k] = true
 		}
 		msg := vh.Try(func() {
-			for k := -1; k <= maxkey+1; k++ {
+			for k := minkey - 1; k <= maxkey+1; k++ {
 				nd := t.FindNode(k)
 				if (nd != nil) != inS[k] || (nd != nil && nd.Value != k) {
 					report("membership", last, vh.M{"key": k, "member": inS[k]}, vh.M{"found": nd != nil})
 					return
 				}
 			}
-			got, fin := iterate(t, 4*(maxkey+2))
+			got, fin := iterate(t, 4*(maxkey-minkey+3))
 			if !fin || !eqInts(got, want) {
 				report("iteration", last, want, got)
 				return
 			}
 			// iteration from every lower bound
-			for k := -1; k <= maxkey+1; k++ {
+			for k := minkey - 1; k <= maxkey+1; k++ {
 				exp := []int{}
 				for _, x := range want {
 					if x >= k {
@@ -204,7 +207,7 @@ func replay(args []string) {
 				}
 				g := []int{}
 				n := 0
-				for it := t.IteratorFrom(k); it.Ok() && n < 4*(maxkey+2); it.Next() {
+				for it := t.IteratorFrom(k); it.Ok() && n < 4*(maxkey-minkey+3); it.Next() {
 					g = append(g, it.Get())
 					n++
 				}
@@ -223,7 +226,7 @@ func replay(args []string) {
 					report("iter_missing", last, io, nil)
 					return
 				}
-				if it.Ok() != (io.Cur != -1) {
+				if it.Ok() != (io.Cur != done) {
 					report("iter_ok", last, io, vh.M{"ok": it.Ok(), "get": it.Get()})
 					return
 				}
@@ -266,6 +269,10 @@ func record(args []string) {
 	ntr, _ := strconv.Atoi(args[1])
 	nops, _ := strconv.Atoi(args[2])
 	nkeys, _ := strconv.Atoi(args[3])
+	minkey := 0
+	if len(args) > 4 {
+		minkey, _ = strconv.Atoi(args[4])
+	}
 	seed := int64(vh.EnvInt("VERIF_SEED", 1))
 	out := vh.NewOut(args[0])
 	defer out.Close()
@@ -292,7 +299,7 @@ func record(args []string) {
 			var cur ev
 			skip := false
 			wd.Begin(vh.M{"trace": tr, "op": op, "seed": seed})
-			msg := vh.Try(func() { cur, skip = oneOp(rng, x, pIns, pDel, nkeys, trees, its, itTree, out) })
+			msg := vh.Try(func() { cur, skip = oneOp(rng, x, pIns, pDel, nkeys, minkey, trees, its, itTree, out) })
 			wd.End()
 			if msg != "" {
 				// a panic of the real code is an event no action of the specification explains
@@ -309,14 +316,14 @@ func record(args []string) {
 const NT = 3 // user-visible trees 1..3 ; snapshot trees of safe iterators are 3+j
 const NI = 3
 
-func oneOp(rng *rand.Rand, x, pIns, pDel, nkeys int, trees []*AvlTree, its []*AvlIterator, itTree []int, out *vh.Out) (ev, bool) {
+func oneOp(rng *rand.Rand, x, pIns, pDel, nkeys, minkey int, trees []*AvlTree, its []*AvlIterator, itTree []int, out *vh.Out) (ev, bool) {
 	{
 		{
 			t := 1 + rng.Intn(NT)
 			if rng.Intn(4) != 0 {
 				t = 1
 			}
-			k := rng.Intn(nkeys)
+			k := minkey + rng.Intn(nkeys)
 			j := 1 + rng.Intn(NI)
 			e := ev{T: t, K: k, Shape: vh.M{"nil": true}}
 			switch {
